@@ -102,6 +102,16 @@ func boundCells(x *Ctx) {
 								}
 							}
 						})
+						// the instant itself: the caller's value (possibly renormalised by an idempotent function of
+						// package time), or now + the caller's duration; anything else (fields reassembled with
+						// time.Date, a shifted copy) is another instant than the one the caller gave
+						var val *paths.Term
+						if lv := q.LastStore(a); lv != nil {
+							val = lv
+						}
+						if val != nil && !callerInstant(val) {
+							bad += fmt.Sprintf("%s: the option stores %s as %s: not the caller's instant (or now + the caller's duration)\n", x.P.Pos(a.Pos()), val, fld)
+						}
 						if !allocated && written != "" {
 							bad += fmt.Sprintf("%s: the option stores the address of %s (declared at %s, outside the function applied to the token) into %s and writes it at %s on every application: all tokens built from one option value share the instant, and building the next token moves the bound of the earlier ones\n",
 								x.P.Pos(a.Pos()), a.Comment, x.P.Pos(a.Pos()), fld, written)
@@ -145,4 +155,39 @@ func idempotentRenormalisation(v *paths.Term) bool {
 		}
 	}
 	return true
+}
+
+// callerInstant: t is a parameter of the option constructor / of the option, time.Now().Add(parameter), or one
+// of these passed through idempotent renormalisations of package time.
+func callerInstant(t *paths.Term) bool {
+	for t != nil && t.Op == "call" && len(t.Args) >= 1 {
+		switch t.Name {
+		case "(time.Time).Round", "(time.Time).Truncate", "(time.Time).UTC", "(time.Time).Local", "(time.Time).In":
+			t = t.Args[0]
+			continue
+		}
+		break
+	}
+	if t == nil {
+		return false
+	}
+	plain := func(u *paths.Term) bool {
+		if u == nil {
+			return false
+		}
+		bad := false
+		u.Walk(func(w *paths.Term) {
+			if w.Op == "call" || w.Op == "invoke" || w.Op == "dyncall" || w.Op == "global" {
+				bad = true
+			}
+		})
+		return !bad
+	}
+	if plain(t) {
+		return true
+	}
+	if t.Op == "call" && t.Name == "(time.Time).Add" && len(t.Args) == 2 && t.Args[0].Op == "call" && t.Args[0].Name == "time.Now" && plain(t.Args[1]) {
+		return true
+	}
+	return false
 }
